@@ -102,6 +102,11 @@ func symxPermuteMapsTwoOrders(on bool) {}
 
 func symxRealLibrary(name string) {}
 
+// symxAtExit registers a clean-up to run after the last replayed case of this test process.
+var symxAtExitFns []func()
+
+func symxAtExit(f func()) { symxAtExitFns = append(symxAtExitFns, f) }
+
 func symxPanicMode(mode string) {}
 
 func symxIsSymbolic() bool { return false }
@@ -180,6 +185,9 @@ func TestSymxReplay(t *testing.T) {
 	outs := make([]symxOutcome, len(cases))
 	for i, c := range cases {
 		outs[i] = symxRunOne(c)
+	}
+	for _, f := range symxAtExitFns {
+		f()
 	}
 	b, _ := json.Marshal(outs)
 	if err := os.WriteFile(os.Getenv("SYMX_OUT"), b, 0o644); err != nil {
@@ -271,7 +279,10 @@ func runNative(repo string, p *pkgHarness, all []*pkgHarness, cases []nativeCase
 	os.Remove(outFile)
 	cmd := exec.Command("go", "test", "-vet=off", "-count=1", "-timeout", "20m", "-overlay", ovFile, "-run", "^TestSymxReplay$", p.ImportPath)
 	cmd.Dir = repo
-	cmd.Env = append(os.Environ(), "SYMX_CASES="+casesFile, "SYMX_OUT="+outFile, "GOFLAGS=-mod=mod", "GOPROXY=off")
+	// harnesses that need real files (front-end fixtures) write them under os.TempDir(): give every replay its own
+	tmp := filepath.Join(scratch, "tmp")
+	os.MkdirAll(tmp, 0o755)
+	cmd.Env = append(os.Environ(), "SYMX_CASES="+casesFile, "SYMX_OUT="+outFile, "GOFLAGS=-mod=mod", "GOPROXY=off", "TMPDIR="+tmp, "GOTMPDIR="+scratch)
 	t0 := time.Now()
 	out, err := cmd.CombinedOutput()
 	_ = t0
